@@ -299,6 +299,8 @@ impl Executor {
                     }
 
                     let public_key_byte_vector: Vec<u8> = public_key_bytes.into();
+                    #[cfg(melstf_verif)]
+                    crate::verif_hooks::BYTES_MATERIALISED.fetch_add(public_key_byte_vector.len() as u64, std::sync::atomic::Ordering::Relaxed);
                     let public_key: tmelcrypt::Ed25519PK = tmelcrypt::Ed25519PK::from_bytes(&public_key_byte_vector)?;
                     log::trace!("CONV PK");
                     let message_bytes: CatVec<u8, 256> = message.into_bytes()?;
@@ -308,6 +310,8 @@ impl Executor {
                     }
 
                     let message_byte_vector: Vec<u8> = message_bytes.into();
+                    #[cfg(melstf_verif)]
+                    crate::verif_hooks::BYTES_MATERIALISED.fetch_add(message_byte_vector.len() as u64, std::sync::atomic::Ordering::Relaxed);
                     let signature_bytes: CatVec<u8, 256> = signature.into_bytes()?;
                     log::trace!("GOT TO SIG BYTES");
 
@@ -319,7 +323,7 @@ impl Executor {
                     log::trace!("GOT TO END");
                     #[cfg(melstf_verif)]
                     {
-                        crate::verif_hooks::BYTES_MATERIALISED.fetch_add((public_key_byte_vector.len() + message_byte_vector.len() + signature_byte_vector.len()) as u64, std::sync::atomic::Ordering::Relaxed);
+                        crate::verif_hooks::BYTES_MATERIALISED.fetch_add(signature_byte_vector.len() as u64, std::sync::atomic::Ordering::Relaxed);
                         crate::verif_hooks::log_call(crate::verif_hooks::OracleCall::SigOk(public_key_byte_vector.clone(), message_byte_vector.clone(), signature_byte_vector.clone(), public_key.verify(&message_byte_vector, &signature_byte_vector)));
                     }
                     Some(Value::from_bool(public_key.verify(&message_byte_vector, &signature_byte_vector)))
